@@ -89,7 +89,7 @@ class C07(E1Check):
             ps_ = paths(SHAPES[shape])
             leaves_ = [p for p, nd in ps_ if not nd.get("children") and p != ""]
             if len(leaves_) >= 2:
-                for extra in ("in-factory", "svc-none"):
+                for extra in ("in-factory", "svc-none", "fac-hs"):
                     for pos in ("before", "after"):
                         # the last leaf fails while the first leaf is suspended inside an async resource factory / after the first leaf
                         # started a self-ending service task (teardown_action=None) behind a resource teardown
@@ -103,6 +103,9 @@ class C07(E1Check):
                                   "fault": {"path": p, "phase": phase, "pos": "after", "cls": "N", "handshake": False}})
             for absent in ("", "noprep"):
                 progs.append({"kind": "timeout", "shape": shape, "absent": absent, "timeout": 5})
+            # the time-out strikes while a component is suspended in `await agen.aclose()` / in a task factory's start-up handshake
+            for stall in ("stall-aclose", "fac-hs"):
+                progs.append({"kind": "timeout", "shape": shape, "absent": "", "timeout": 5, "stall": stall})
             if len(paths(SHAPES[shape])) >= 3:
                 # one component fails inside a lookup (the shared async factory raises) while siblings wait for the same resource
                 for timeout in (5, None):
@@ -135,12 +138,18 @@ class C07(E1Check):
             for p, nd in ps[1:]:
                 if not nd.get("children"):
                     nd["start"].insert(1, ("get", "RA", "shared", "shortcut", False, f"{p}:start"))
+        if program.get("stall"):
+            last = paths(spec)[-1]
+            last[1]["start"].insert(1, ("stall-aclose",) if program["stall"] == "stall-aclose" else ("fac-hs", f"fh:{last[0]}"))
         if program.get("extra"):
             ps = paths(spec)
             first_leaf = next((p, nd) for p, nd in ps if not nd.get("children") and p != "" and p != program["fault"]["path"])
             if program["extra"] == "in-factory":
                 ps[0][1]["prepare"].insert(1, ("addf", "RA", "slowf", "slowf", "agated"))
                 first_leaf[1]["start"].insert(1, ("get", "RA", "slowf", "shortcut", False, f"{first_leaf[0]}:start"))
+            elif program["extra"] == "fac-hs":
+                # suspended in TaskFactory.start_task() (start-up handshake of a factory task) when the sibling fails
+                first_leaf[1]["start"].insert(1, ("fac-hs", f"fh:{first_leaf[0]}"))
             else:
                 first_leaf[1]["start"].insert(1, ("svc-none", f"sn:{first_leaf[0]}"))
         tree = Tree(env, spec)
